@@ -408,6 +408,18 @@ func (s *sim) newTx(o txOpts) *txDef {
 	case "tiny": // below the 65-byte rule: one bare input spending OP_TRUE with an empty script is needed; approximate with one bare output
 		d.outs = []outDef{{kind: 't'}}
 		d.ins = d.ins[:1]
+	case "tiny2": // the 65-byte rule (MinStandardTxNonWitnessSize) at 63 / 64 / 65 / 66 stripped bytes
+		d.ins = d.ins[:1]
+		k := int(s.r.Pick(0, 1, 2))
+		for _, o := range s.unspentOuts(false) {
+			if o.kind == 't' { // a bare OP_TRUE output is spent with an empty script: two bytes less
+				d.ins[0] = inDef{o.txid, o.idx, 0xffffffff, 'g'}
+				total = o.value
+				k = int(s.r.Pick(2, 3, 4))
+				break
+			}
+		}
+		d.outs = []outDef{{kind: 'n', pad: k}}
 	case "lockh":
 		d.lock = "h" + strconv.Itoa(s.height()+int(s.r.Pick(-1, 0, 1, 2)))
 		if d.lock[1] == '-' || d.lock == "h0" {
@@ -615,7 +627,7 @@ func (s *sim) randomOpts() txOpts {
 	}
 	if r.Chance(22, 100) {
 		sp := []string{"ghost", "badidx", "dupin", "badscript", "coinbase", "ver3", "ver2", "nonstdout", "nulldata",
-			"nulldata2", "big", "big49k", "noouts", "lockh", "lockt", "lockh", "lockt", "overspend", "dust", "tiny"}
+			"nulldata2", "big", "big49k", "noouts", "lockh", "lockt", "lockh", "lockt", "overspend", "dust", "tiny", "tiny2", "tiny2"}
 		o.special = sp[r.Intn(len(sp))]
 	}
 	return o
